@@ -34,6 +34,9 @@ fn main() {
                 "C05" => props::c05::run(tier),
                 "C06" => props::c06::run(tier),
                 "C08" => props::c08::run(tier),
+                "C09" => props::c09::run(tier),
+                "C12" => props::c12::run(tier),
+                "C13" => props::c13::run(tier),
                 _ => usage(),
             };
             std::process::exit(code);
